@@ -1,18 +1,37 @@
 """C13 — benchmark ids print and parse consistently.
-model: lean/CRModel/BenchId.lean; theorems: lean/CRProps/C13.lean (helper lemmas lean/CRProofs/BenchId.lean).
+model: lean/CRModel/BenchId.lean; theorems: lean/CRProps/C13.lean (helper lemmas lean/CRProofs/BenchId*.lean).
 
 Streams (a *case* is a JSON dict with a "kind"):
-  sid      constructor arguments of a ScenarioID (valid, or deliberately outside the property's domain)
+  sid      all eight constructor arguments of a ScenarioID (valid, or deliberately outside the property's domain)
            impl: ScenarioID(...), str(), from_benchmark_id(str, version), str() again  vs  model mk/print/parse/print
-           oracle (valid ids only): grammar (own regex, not the code's), parse-back equality field by field, same print
-  parse    an arbitrary string + version through ScenarioID.from_benchmark_id  vs  model parse   (correspondence only)
-  sol      ScenarioID + list of (vehicle model, vehicle type, cost function, planning problem id)
+           oracle (valid ids only): grammar (own regex, not the code's), parse-back equality field by field, ==, hash, same print
+  sidkw    ANY SUBSET of the constructor arguments (all 256 given/omitted masks every run), leading ones positionally,
+           explicit None, numbers as numpy int64                     vs  model Kw.fill / mk / print / parse      (+ same oracle)
+  hist     a constructed id, then a history: attributes re-assigned (plain attributes, the cleaning map_name setter, the
+           validating country_id setter incl. rejected values, the same object handed back, the prediction list mutated in
+           place), interleaved with read-only queries (str, hash, ==, country_name, deepcopy, pickle, from_benchmark_id via
+           the instance)                                             vs  model runOps / print / parse             (+ same oracle)
+  parse    an arbitrary string + version through ScenarioID.from_benchmark_id (class / instance / keyword call)  vs  model parse
+  file     a Scenario carrying the id written by CommonRoadFileWriter (XML / protobuf) and read back: the header id
+           impl vs model parse(print, version of the header); oracle: equal id (version as the header carries it), same print
+  sol      ScenarioID + list of (vehicle model, vehicle type, cost function, planning problem id, trajectory kind) + Solution
+           options (date / computation_time / processor_name given or not) + reader entry point (fromstring of a pretty / raw
+           dump, open of a written file with given / default file name) + read-only queries before the observation
            impl: Solution.benchmark_id; CommonRoadSolutionReader._parse_benchmark_id/_parse_vehicle_id on it; and the full
-           CommonRoadSolutionWriter.dump -> CommonRoadSolutionReader.fromstring path  vs  model benchmarkId/readSolutionIds
+           CommonRoadSolutionWriter -> CommonRoadSolutionReader path  vs  model benchmarkId/readSolutionIds
            oracle: same models, types, cost functions, scenario id, version come back (static path and XML path)
+  solhist  a Solution, then a history: vehicle_model / vehicle_type / cost_function / trajectory setters on the held objects
+           (incl. rejected ones), the list re-assigned (permuted, subset, same list handed back, reversed, repeated planning
+           problem ids), scenario_id re-assigned or mutated in place, queries in between
+           impl vs model stepSol / SolState.benchmarkId / readSolutionIds; oracle as for sol on the CURRENT state
   bid/vid  arbitrary strings through _parse_benchmark_id / _parse_vehicle_id vs model   (correspondence only)
   tamper   a written solution XML whose benchmark_id attribute was replaced, through fromstring vs model readSolutionIds
+  tables   the enums / constants of the working tree (VehicleModel, VehicleType, CostFunction, SupportedCostFunctions,
+           TrajectoryType.valid_vehicle_model, supported versions) vs the model's tables
+DIMENSIONS (below) lists every constructor parameter, attribute and public member of the anchored classes with the way it is
+varied; `check_dimensions` compares it with the working tree on every run (unknown member => exit 2).
 """
+import copy
 import re
 import traceback
 import warnings
@@ -21,12 +40,16 @@ from common import InfraError
 
 RULE = ("scenario ids: full product over small value sets (cooperative x {ZAM, two ISO codes, None} x 7 map names x 6 map ids x "
         "11 shapes of configuration/behaviour/prediction) in shuffled chunks + random ids (all 250 ISO codes, alphanumeric names "
-        "1..12 chars, numbers up to 10^40, prediction lists of 2..5) + ids outside the domain (one-element prediction list, "
-        "0 / negative / empty values, unknown country or behaviour, non-alphanumeric names, unsupported version) + strings for "
-        "the parser (printed ids with one character deleted / inserted / replaced, leading zeros, garbage); solutions: 1..4 "
-        "planning problems over all supported (vehicle model, vehicle type, cost function) triples with real trajectories, "
-        "single and cooperative; distinct = distinct canonical JSON of the case; non-trivial = every case (each one runs "
-        "constructor, print and parse)")
+        "1..40 chars, numbers up to 10^40, prediction lists of 2..5) + ids outside the domain (one-element prediction list, "
+        "0 / negative / empty values, unknown country or behaviour, non-alphanumeric names, unsupported version) + keyword "
+        "construction with every one of the 256 given/omitted argument masks (x positional prefix, explicit None, numpy int64), "
+        "every ISO code + ZAM once + attribute histories (1..8 assignments / in-place edits / rejected assignments / read-only "
+        "queries, valid and invalid final states) + strings for the parser (printed ids with one character deleted / inserted / "
+        "replaced, leading zeros, garbage; class / instance / keyword call) + ids through scenario file headers (XML, protobuf); "
+        "solutions: 1..8 (rarely 20) planning problems over all supported (vehicle model, vehicle type, cost function) triples "
+        "with input and state trajectories, unsorted / large / zero planning problem ids, Solution options, four reader entry "
+        "points, queries first; solution histories (setters, list / scenario id re-assigned or mutated, repeated ids); "
+        "distinct = distinct canonical JSON of the case; non-trivial = every case (each one runs constructor, print and parse)")
 ASSUMPTIONS = [
     "iso3166.countries_by_alpha3 keys are three upper-case ASCII letters (checked at the start of every run; hypothesis "
     "`CountriesOk` of the theorems)",
@@ -34,12 +57,38 @@ ASSUMPTIONS = [
     "denotational grammar idRE, C13_pattern_iff_grammar; compared with the real regex on >= 2500 well- and ill-formed strings per run)",
     "str(int) / int(str) are decimal printing / reading (modelled digit by digit; compared on numbers up to 10^40)",
     "input strings are ASCII except where noted (Python's int() also accepts non-ASCII decimal digits in _parse_vehicle_id)",
+    "the cooperative flag is a Python bool and numbers are Python ints or numpy integers: numpy.bool_ / 1 / 'yes' as flag "
+    "(`cooperative is True` is False for them), bool / float / str as number, tuples / arrays as prediction list are outside "
+    "the quantifier (no verdict)",
+    "a ScenarioID whose attributes were re-assigned is judged on the values it then holds: it is a valid id iff these values "
+    "are in the domain AND complete the way the constructor leaves them (behaviour => configuration id and prediction id "
+    "present; a prediction list has >= 2 entries) — `IdOk` of the theorems; other states are compared with the model only",
+    "a scenario FILE carries one commonRoadVersion for the whole file: the XML writer always writes 2020a, so an id of version "
+    "2018b comes back with version 2020a (all other fields and the print must agree); the protobuf writer stores the id's version",
+    "a Solution is judged on the planning problem solutions it currently holds (getter order) and its current scenario_id; "
+    "a CommonRoadSolutionWriter serialises at construction, so it is constructed after the history; an empty list of "
+    "planning problem solutions is outside the quantifier ('lists of them' are non-empty)",
 ]
 TRUSTED = ["XML attribute write/read of the benchmark id (ElementTree) is the identity on these ASCII strings (sampled by the XML path)"]
 REQUIRED_BUCKETS = ["sid/map-only", "sid/config-only", "sid/behaviour-default-prediction", "sid/prediction-int",
                     "sid/prediction-list", "sid/cooperative", "sid/big-number", "sid/outside-domain", "sid/one-element-list",
                     "sid/ctor-error", "parse/malformed", "parse/well-formed", "sol/single", "sol/cooperative", "sol/xml-path",
-                    "bid/malformed", "vid", "tamper", "tamper/compared"]
+                    "bid/malformed", "vid", "tamper", "tamper/compared",
+                    # generator audit (dimension table below)
+                    "dims/checked", "tables", "kw/all-256-masks", "kw/nothing-given", "kw/positional", "kw/explicit-none",
+                    "kw/behaviour-without-prediction", "kw/configuration-without-behaviour", "kw/behaviour-without-configuration",
+                    "kw/prediction-without-behaviour", "kw/map-id-only", "np/int64", "country/all-iso+ZAM", "name/long",
+                    "name/digits-only", "name/mixed-case", "hist/valid-final", "hist/outside-final", "hist/rejected-assignment",
+                    "hist/map-name-cleaned", "hist/pred-list-in-place", "hist/same-object-back", "hist/query-between",
+                    "hist/deepcopy", "hist/pickle", "hist/tail-switch", "hist/version-set", "hist/country-none-assigned", "hist/start-parsed", "solhist/read-back-first", "parse/via-instance",
+                    "parse/via-keyword", "file/xml", "file/protobuf", "file/2018b", "sol/len>=5", "sol/len-20", "sol/traj-state",
+                    "sol/traj-input", "sol/three-letter-model", "sol/all-supported-triples", "sol/entry/fromstring-pretty",
+                    "sol/entry/fromstring-raw", "sol/entry/open", "sol/entry/open-default-name", "sol/date-none",
+                    "sol/date-given", "sol/computation-time", "sol/processor-name", "sol/pids-unsorted", "sol/pid-zero",
+                    "sol/pid-large", "sol/queries-first", "sol/same-cost-everywhere", "solhist/setter", "solhist/setter-rejected",
+                    "solhist/list-reassigned", "solhist/same-list-back", "solhist/repeated-pid", "solhist/sid-reassigned",
+                    "solhist/sid-mutated", "solhist/query-between", "solhist/trajectory-set", "solhist/ctor-rejected",
+                    "solhist/oracle"]
 
 VERSIONS = ["2020a", "2018b"]
 _ID_GRAMMAR = re.compile(r"(C-)?[A-Z]{3}_[A-Za-z0-9]+-[1-9][0-9]*(_[1-9][0-9]*(_[STPI](-[1-9][0-9]*)+)?)?", re.ASCII)
@@ -58,14 +107,222 @@ def countries():
     return _countries
 
 
+# ------------------------------------------------------------------------------------------------ dimension table
+
+# Every constructor parameter ("ctor"), instance attribute ("attrs") and class member ("members") of the classes the property
+# anchors, with how the generators vary it / why it cannot matter.  `check_dimensions` compares the table with the working
+# tree on every run: a parameter, attribute or member the table does not know (or one that disappeared) stops the run with
+# exit 2 (`dimensions_verdict`) unless the run found a failing input anyway, which is then reported as usual.
+DIMENSIONS = {
+    "commonroad.scenario.scenario.ScenarioID": {
+        "ctor": {
+            "cooperative": "given (True / False) or omitted: sidkw masks; positional or keyword; re-assigned: hist `coop`",
+            "country_id": "given (each of the 250 ISO codes, ZAM, explicit None, unknown codes) or omitted; re-assigned incl. rejected",
+            "map_name": "given (1..40 alphanumerics, digits only, mixed case, id look-alikes; non-alphanumerics outside) or omitted; "
+                        "re-assigned incl. names the setter cleans and the same string handed back",
+            "map_id": "given (1 .. 10^40, int or numpy int64; 0 / negative outside) or omitted; re-assigned",
+            "configuration_id": "given, explicit None or omitted, in every combination with behaviour / prediction; re-assigned",
+            "obstacle_behavior": "given (S, T, P, I; others outside), explicit None or omitted, with / without configuration and "
+                                 "prediction id; re-assigned",
+            "prediction_id": "given (int, list of 2..5, numpy; one-element / empty list, 0, negative outside), explicit None or "
+                             "omitted, with / without behaviour; re-assigned; list mutated in place; same list handed back",
+            "scenario_version": "given (2020a, 2018b; unsupported outside) or omitted; re-assigned",
+        },
+        "attrs": {
+            "scenario_version": "hist `version`", "cooperative": "hist `coop`", "_country_id": "hist `country` (setter)",
+            "_map_name": "hist `map_name` (setter)", "map_id": "hist `map_id`", "obstacle_behavior": "hist `beh`",
+            "configuration_id": "hist `config`", "prediction_id": "hist `pred`, `pred_append`",
+        },
+        "members": {
+            "__init__": "sid, sidkw", "__str__": "observation; hist query `str` before further assignments",
+            "__eq__": "oracle (both directions, fresh id of the same values, other type); hist query `eq`",
+            "__hash__": "oracle (parsed vs constructed, fresh id of the same values); hist query `hash`",
+            "benchmark_id_pattern": "class constant; compared with the model matcher on the parse stream",
+            "from_benchmark_id": "parse stream: via class, via an instance of another id, version by keyword; on ids printed by "
+                                 "constructed / mutated / copied ids, by Solution.benchmark_id and by file headers",
+            "map_name": "property + cleaning setter: hist", "country_id": "property + validating setter: hist",
+            "country_name": "read-only: hist query", "prediction_type": "deprecated read-only alias: hist query",
+        },
+    },
+    "commonroad.common.solution.PlanningProblemSolution": {
+        "ctor": {
+            "planning_problem_id": "0, small, large (10^12), unsorted, gaps, repeated (solhist); not in the benchmark id",
+            "vehicle_model": "every member incl. the three-letter KST; re-assigned through the setter incl. rejected (solhist)",
+            "vehicle_type": "every member; re-assigned (plain attribute)",
+            "cost_function": "every member supported for the model; unsupported -> rejected; re-assigned incl. rejected",
+            "trajectory": "input vector / PM input vector / state trajectory of the model; re-assigned through the setter; "
+                          "states and time steps are C14's subject",
+        },
+        "attrs": {
+            "planning_problem_id": "ctor", "_vehicle_model": "setter", "vehicle_type": "assignment", "_cost_function": "setter",
+            "_trajectory": "setter", "_trajectory_type": "derived by ctor / trajectory setter; decides which models the setter admits",
+        },
+        "members": {
+            "__init__": "sol, solhist", "_check_cost_supported": "ctor / setters: rejected combinations (solhist, tables)",
+            "_check_trajectory_supported": "ctor / setters: rejected combinations (solhist, tables)",
+            "vehicle_model": "solhist `model`", "cost_function": "solhist `cost`", "trajectory": "solhist `traj`",
+            "trajectory_type": "read-only: query", "vehicle_id": "observation (part of the benchmark id); query",
+            "cost_id": "observation (part of the benchmark id); query",
+        },
+    },
+    "commonroad.common.solution.Solution": {
+        "ctor": {
+            "scenario_id": "every id shape of the sid streams; re-assigned / mutated in place after construction (solhist)",
+            "planning_problem_solutions": "1..8 (rarely 20) entries, all the same / all different cost functions, any id order; "
+                                          "re-assigned: permutation, subset, same list, reversed, repeated ids (solhist)",
+            "date": "omitted / None / given: header attribute only",
+            "computation_time": "omitted / None / float / int: header attribute only",
+            "processor_name": "omitted / None / a name / 'auto': header attribute only",
+        },
+        "attrs": {
+            "scenario_id": "solhist `sid`, `sidset`", "_planning_problem_solutions": "solhist `setpps`, `same`, `rev`",
+            "date": "ctor", "_computation_time": "ctor", "processor_name": "ctor",
+        },
+        "members": {
+            "__init__": "sol, solhist", "planning_problem_solutions": "getter / setter: solhist",
+            "benchmark_id": "observation; queried repeatedly between operations",
+            "vehicle_ids": "read-only: query before the observation", "cost_ids": "read-only: query",
+            "planning_problem_ids": "read-only: query", "trajectory_types": "read-only: query",
+            "computation_time": "property + validating setter: ctor values",
+            "create_dynamic_obstacle": "read-only (builds new objects): query on state trajectories",
+        },
+    },
+    "commonroad.common.solution.CommonRoadSolutionReader": {
+        "ctor": {},
+        "attrs": {},
+        "members": {
+            "open": "entry point: sol `entry` = open / open-default-name", "fromstring": "entry point: sol `entry` = fromstring-*; tamper",
+            "_parse_solution": "behind both entry points", "_parse_header": "behind both entry points (date / time / processor given or not)",
+            "_parse_planning_problem_solution": "behind both entry points; tamper (unknown cost / vehicle ids)",
+            "_parse_trajectory": "C14's subject (exceptions from it exclude the XML path only)",
+            "_parse_sub_element": "C14's subject", "_parse_state": "C14's subject",
+            "_parse_benchmark_id": "static path of sol / solhist; bid stream (malformed)", "_parse_vehicle_id": "static path; vid stream",
+        },
+    },
+    "commonroad.common.solution.CommonRoadSolutionWriter": {
+        "ctor": {"solution": "every sol / solhist case (constructed after the history: it serialises at construction)"},
+        "attrs": {"solution": "ctor", "_solution_root": "built at construction"},
+        "members": {
+            "__init__": "sol, solhist", "dump": "pretty True / False; called twice on one writer (entry `open` also dumps)",
+            "write_to_file": "given file name / default name solution_<benchmark id>.xml; overwrite=True; pretty True / False",
+            "_get_processor_name": "processor_name='auto' (header attribute only)", "_serialize_solution": "behind __init__",
+            "_create_root_node": "behind __init__: writes Solution.benchmark_id", "_create_trajectory_node": "C14's subject",
+            "_create_sub_element": "C14's subject", "_create_state_node": "C14's subject",
+        },
+    },
+}
+ENUM_DIMENSIONS = {      # members known to the Lean model (CRModel/BenchId.lean: VModel, VType, Cost); compared by `tables`
+    "VehicleModel": ["PM", "ST", "KS", "MB", "KST"], "VehicleType": ["FORD_ESCORT", "BMW_320i", "VW_VANAGON", "TRUCK"],
+    "CostFunction": ["JB1", "SA1", "WX1", "SM1", "SM2", "SM3", "MW1", "TR1"],
+    "SupportedCostFunctions": ["PM", "ST", "KS", "MB", "KST"],
+    "TrajectoryType": ["MB", "ST", "KS", "KST", "PM", "Input", "PMInput"],
+}
+_IGNORED_CLASS_KEYS = {"__module__", "__dict__", "__weakref__", "__doc__", "__annotations__", "__qualname__", "__firstlineno__",
+                       "__static_attributes__", "__annotate__", "__annotations_cache__"}
+_dims_checked = False
+
+
+def _probe_instances():
+    """one instance per class, to read the instance attributes the constructors create"""
+    from commonroad.common.solution import (CommonRoadSolutionWriter, CostFunction, PlanningProblemSolution, Solution,
+                                            VehicleModel, VehicleType)
+    from commonroad.scenario.scenario import ScenarioID
+    sid = ScenarioID()
+    pps = PlanningProblemSolution(1, VehicleModel.KS, VehicleType.BMW_320i, CostFunction.SA1, _trajectory("KS", "input"))
+    sol = Solution(sid, [pps])
+    return {"ScenarioID": sid, "PlanningProblemSolution": pps, "Solution": sol, "CommonRoadSolutionReader": None,
+            "CommonRoadSolutionWriter": CommonRoadSolutionWriter(sol)}
+
+
+def check_dimensions(ctx):
+    """DIMENSIONS / ENUM_DIMENSIONS against the working tree (once per process)."""
+    global _dims_checked
+    if _dims_checked:
+        ctx.tag("dims/checked")
+        return
+    import importlib
+    import inspect
+    problems = []
+    try:
+        inst = _probe_instances()
+    except Exception as e:  # noqa
+        raise InfraError(f"C13 dimension check: cannot build the probe objects: {type(e).__name__}: {e}")
+    for path, table in DIMENSIONS.items():
+        modname, clsname = path.rsplit(".", 1)
+        C = getattr(importlib.import_module(modname), clsname)
+        sig = [q for q in inspect.signature(C.__init__).parameters if q != "self"] if "__init__" in C.__dict__ else []
+        if sig != list(table["ctor"]):
+            problems.append(f"{clsname}.__init__ parameters are {sig}, the dimension table has {list(table['ctor'])}")
+        members = sorted(k for k in C.__dict__ if k not in _IGNORED_CLASS_KEYS)
+        for k in members:
+            if k not in table["members"]:
+                problems.append(f"{clsname}.{k} is a member the dimension table does not know")
+        for k in table["members"]:
+            if k not in members:
+                problems.append(f"{clsname}.{k} is in the dimension table but not in the class any more")
+        if inst[clsname] is not None:
+            attrs = sorted(vars(inst[clsname]))
+            for k in attrs:
+                if k not in table["attrs"]:
+                    problems.append(f"{clsname} instances have an attribute {k} the dimension table does not know")
+            for k in table["attrs"]:
+                if k not in attrs:
+                    problems.append(f"{clsname}.{k} is in the dimension table but instances do not have it")
+    import commonroad.common.solution as S
+    for ename, names in ENUM_DIMENSIONS.items():
+        real = list(getattr(S, ename).__members__)        # incl. aliases (SupportedCostFunctions.KS is ST's value)
+        if sorted(real) != sorted(names):
+            problems.append(f"enum {ename} has members {real}, the model's table has {names}")
+    for fname, params in (("from_benchmark_id", ["benchmark_id", "scenario_version"]),):
+        from commonroad.scenario.scenario import ScenarioID
+        sig = list(inspect.signature(getattr(ScenarioID, fname)).parameters)
+        if sig != params:
+            problems.append(f"ScenarioID.{fname} parameters are {sig}, the harness calls it with {params}")
+    from commonroad.common.solution import CommonRoadSolutionWriter
+    for fname, params in (("dump", ["self", "pretty"]), ("write_to_file", ["self", "output_path", "filename", "overwrite", "pretty"])):
+        sig = list(inspect.signature(getattr(CommonRoadSolutionWriter, fname)).parameters)
+        if sig != params:
+            problems.append(f"CommonRoadSolutionWriter.{fname} parameters are {sig}, the harness knows {params}")
+    _dims_checked = True
+    _dims_problems[:] = problems
+    ctx.tag("dims/checked")
+
+
+_dims_problems = []
+
+
+def dimensions_verdict(ctx):
+    """called at the end of a run: a member / parameter / attribute the table does not know means the generators may not reach
+    what it influences.  If the histories nevertheless exposed a failure (e.g. a new cache attribute gone stale) that finding is
+    reported; otherwise the run stops with exit 2 instead of claiming coverage it does not have."""
+    if _dims_problems and not ctx.failures and not ctx.disagreements:
+        raise InfraError("C13 dimension table is out of date (extend DIMENSIONS and the generators):\n  " + "\n  ".join(_dims_problems))
+
+
 # ------------------------------------------------------------------------------------------------ implementation side
+
+ORDER = ["coop", "country", "map_name", "map_id", "config", "beh", "pred", "version"]            # signature order
+PARAM = {"coop": "cooperative", "country": "country_id", "map_name": "map_name", "map_id": "map_id",
+         "config": "configuration_id", "beh": "obstacle_behavior", "pred": "prediction_id", "version": "scenario_version"}
+# the documented defaults of ScenarioID(...) (docstring / signature of the release), stated here independently of the code
+DEFAULTS = {"coop": False, "country": "ZAM", "map_name": "Test", "map_id": 1, "config": None, "beh": None, "pred": None,
+            "version": "2020a"}
+
+
+def _py(v):
+    """numpy integers -> int (canonical form; the generators hand numpy int64 to the constructor in the `np` cases)"""
+    import numpy as np
+    if isinstance(v, np.integer):
+        return int(v)
+    return v
+
 
 def sid_fields(o):
     """canonical form of a ScenarioID object: the eight attributes __eq__ compares"""
     p = o.prediction_id
-    return {"coop": o.cooperative, "country": o.country_id, "map_name": o.map_name, "map_id": o.map_id,
-            "config": o.configuration_id, "beh": o.obstacle_behavior, "pred": list(p) if isinstance(p, list) else p,
-            "version": o.scenario_version}
+    return {"coop": o.cooperative, "country": o.country_id, "map_name": o.map_name, "map_id": _py(o.map_id),
+            "config": _py(o.configuration_id), "beh": o.obstacle_behavior,
+            "pred": [_py(x) for x in p] if isinstance(p, list) else _py(p), "version": o.scenario_version}
 
 
 def _err(e):
@@ -73,21 +330,39 @@ def _err(e):
     return {"err": err_class(e)}
 
 
-def mk_sid(raw):
+def _conv(key, v, np_=False):
+    """JSON value of a case -> the Python value handed to the code (fresh list; numpy int64 on request)"""
+    if isinstance(v, list):
+        return [_conv(key, x, np_) for x in v]
+    if np_ and isinstance(v, int) and not isinstance(v, bool) and abs(v) < 2 ** 62:
+        import numpy as np
+        return np.int64(v)
+    return v
+
+
+def mk_sid(raw, np_=False):
     from commonroad.scenario.scenario import ScenarioID
-    return ScenarioID(cooperative=raw["coop"], country_id=raw["country"], map_name=raw["map_name"], map_id=raw["map_id"],
-                      configuration_id=raw["config"], obstacle_behavior=raw["beh"],
-                      prediction_id=list(raw["pred"]) if isinstance(raw["pred"], list) else raw["pred"],
+    return ScenarioID(cooperative=raw["coop"], country_id=raw["country"], map_name=raw["map_name"],
+                      map_id=_conv("map_id", raw["map_id"], np_), configuration_id=_conv("config", raw["config"], np_),
+                      obstacle_behavior=raw["beh"], prediction_id=_conv("pred", raw["pred"], np_),
                       scenario_version=raw["version"])
 
 
-def impl_sid(raw):
-    """constructor, print, parse of the print, print of the parse — same shape as driver op `sid`"""
+def mk_sid_kw(case):
+    """ScenarioID(*leading, **rest): only the arguments the case gives"""
     from commonroad.scenario.scenario import ScenarioID
-    try:
-        o = mk_sid(raw)
-    except Exception as e:  # noqa
-        return _err(e), None
+    kw, pos, np_ = case["kw"], case.get("pos", 0), case.get("np", False)
+    vals = {k: _conv(k, v, np_) for k, v in kw.items()}
+    return ScenarioID(*[vals[k] for k in ORDER[:pos]], **{PARAM[k]: vals[k] for k in ORDER[pos:] if k in vals})
+
+
+def fill_kw(kw):
+    return {k: kw.get(k, DEFAULTS[k]) for k in ORDER}
+
+
+def obj_record(o):
+    """print, parse of the print, print of the parse — same shape as the driver's `idRecord`"""
+    from commonroad.scenario.scenario import ScenarioID
     f = sid_fields(o)
     s = str(o)
     try:
@@ -95,37 +370,164 @@ def impl_sid(raw):
         parsed, restr = {"ok": sid_fields(back)}, str(back)
     except Exception as e:  # noqa
         back, parsed, restr = None, _err(e), None
-    return {"ok": {"id": f, "str": s, "parsed": parsed, "restr": restr}}, (o, s, back)
+    return {"id": f, "str": s, "parsed": parsed, "restr": restr}, (o, s, back)
 
 
-def impl_parse(s, ver):
+def impl_sid(raw, np_=False, ctor=None):
+    """constructor, print, parse of the print, print of the parse — same shape as driver op `sid`"""
+    try:
+        o = ctor() if ctor is not None else mk_sid(raw, np_)
+    except Exception as e:  # noqa
+        return _err(e), None
+    try:
+        rec, objs = obj_record(o)
+    except Exception as e:  # noqa  (printing / hashing the constructed id raises)
+        return _err(e), None
+    return {"ok": rec}, objs
+
+
+def impl_parse(s, ver, via="class"):
     from commonroad.scenario.scenario import ScenarioID
     try:
-        o = ScenarioID.from_benchmark_id(s, ver)
+        if via == "instance":          # the classmethod reached through an instance of some other id
+            o = ScenarioID(True, "DEU", "Other", 7, 3, "P", [2, 9], "2018b").from_benchmark_id(s, ver)
+        elif via == "keyword":
+            o = ScenarioID.from_benchmark_id(scenario_version=ver, benchmark_id=s)
+        else:
+            o = ScenarioID.from_benchmark_id(s, ver)
     except Exception as e:  # noqa
         return _err(e)
     return {"ok": {"id": sid_fields(o), "str": str(o)}}
 
 
-def _trajectory(model_name):
-    import numpy as np
-    from commonroad.scenario.state import InputState, KSTState, PMInputState
-    from commonroad.scenario.trajectory import Trajectory
-    if model_name == "PM":
-        sl = [PMInputState(acceleration=0.0, acceleration_y=0.0, time_step=t) for t in range(2)]
-    elif model_name == "KST":
-        sl = [KSTState(position=np.array([0.0, 0.0]), steering_angle=0.0, velocity=1.0, orientation=0.0, hitch_angle=0.0,
-                       time_step=t) for t in range(2)]
+ATTR = {"coop": "cooperative", "country": "country_id", "map_name": "map_name", "map_id": "map_id",
+        "config": "configuration_id", "beh": "obstacle_behavior", "pred": "prediction_id", "version": "scenario_version"}
+
+
+def apply_id_op(o, op, raw):
+    """one step of an id history; returns the (possibly replaced) object, raises what the code raises"""
+    import pickle
+    from commonroad.scenario.scenario import ScenarioID
+    name = op[0]
+    if name in ATTR:
+        setattr(o, ATTR[name], _conv(name, op[1]))
+    elif name == "pred_append":
+        o.prediction_id.append(op[1])
+    elif name.startswith("same:"):
+        a = ATTR[name[5:]]
+        setattr(o, a, getattr(o, a))
+    elif name == "str":
+        str(o)
+    elif name == "hash":
+        hash(o)
+    elif name == "eq":
+        assert (o == o) is True
+        o == mk_sid(raw)       # noqa
+        o == "abc"             # noqa  (other type: warns, False)
+    elif name == "country_name":
+        o.country_name         # noqa
+    elif name == "prediction_type":
+        o.prediction_type      # noqa
+    elif name == "parse-self":
+        ScenarioID.from_benchmark_id(str(o), o.scenario_version)
+    elif name == "parse-other":
+        o.from_benchmark_id("C-USA_US101-33_2_T-1-2", "2018b")
+    elif name == "deepcopy":
+        o = copy.deepcopy(o)
+    elif name == "pickle":
+        o = pickle.loads(pickle.dumps(o))
     else:
-        sl = [InputState(steering_angle_speed=0.0, acceleration=0.0, time_step=t) for t in range(2)]
+        raise InfraError(f"C13: unknown history op {name}")
+    return o
+
+
+def impl_hist(case):
+    from common import err_class
+    from commonroad.scenario.scenario import ScenarioID
+    try:
+        o = mk_sid(case["raw"])
+        if case.get("start") == "parsed":       # the history runs on an id that came out of the parser
+            o = ScenarioID.from_benchmark_id(str(o), o.scenario_version)
+    except Exception as e:  # noqa
+        return _err(e), None
+    errs, prints = [], []
+    for op in case["ops"]:
+        try:
+            o = apply_id_op(o, op, case["raw"])
+            errs.append(None)
+            if op[0] == "str":
+                prints.append(str(o))
+        except InfraError:
+            raise
+        except Exception as e:  # noqa
+            errs.append(err_class(e))
+    try:
+        rec, objs = obj_record(o)
+    except Exception as e:  # noqa
+        return _err(e), None
+    rec["errs"], rec["prints"] = errs, prints
+    return {"ok": rec}, objs
+
+
+def model_id_ops(case):
+    """the history as the driver reads it: assignments as [name, value]; queries as [name, null]; the in-place append as the
+    assignment of the resulting list"""
+    out = []
+    for op in case["ops"]:
+        if op[0] == "pred_append":
+            out.append(["pred", op[2]])
+        elif op[0] in ATTR:
+            out.append([op[0], op[1]])
+        else:
+            out.append([op[0], None])
+    return out
+
+
+def _trajectory(model_name, kind=None):
+    """kind: 'input' (InputState), 'pminput' (PMInputState), or a model name (state trajectory of that model);
+    None = the kind the first version of this harness used for the model"""
+    import numpy as np
+    import commonroad.scenario.state as S
+    from commonroad.common.solution import StateFields
+    from commonroad.scenario.trajectory import Trajectory
+    if kind is None:
+        kind = "pminput" if model_name == "PM" else "KST" if model_name == "KST" else "input"
+    if kind == "pminput":
+        sl = [S.PMInputState(acceleration=0.0, acceleration_y=0.0, time_step=t) for t in range(2)]
+    elif kind == "input":
+        sl = [S.InputState(steering_angle_speed=0.0, acceleration=0.0, time_step=t) for t in range(2)]
+    else:
+        cls = getattr(S, f"{kind}State")
+        kw = {f: (np.array([0.0, 0.0]) if f == "position" else 0.0) for f in StateFields[kind].value if f != "time_step"}
+        sl = [cls(time_step=t, **kw) for t in range(2)]
     return Trajectory(0, sl)
 
 
-def mk_solution(raw, pps):
-    from commonroad.common.solution import CostFunction, PlanningProblemSolution, Solution, VehicleModel, VehicleType
+def _pp(p):
+    """[model, type, cost, pid, (trajectory kind)] -> (model, type, cost, pid, kind)"""
+    return p[0], p[1], p[2], p[3], (p[4] if len(p) > 4 else None)
+
+
+def mk_pps(p):
+    from commonroad.common.solution import CostFunction, PlanningProblemSolution, VehicleModel, VehicleType
+    m, t, c, pid, kind = _pp(p)
+    return PlanningProblemSolution(pid, VehicleModel[m], VehicleType(t), CostFunction[c], _trajectory(m, kind))
+
+
+def mk_solution(raw, pps, opt=None):
+    import datetime
+    from commonroad.common.solution import Solution
     sid = mk_sid(raw)
-    lst = [PlanningProblemSolution(pid, VehicleModel[m], VehicleType(t), CostFunction[c], _trajectory(m)) for m, t, c, pid in pps]
-    return sid, Solution(sid, lst)
+    lst = [mk_pps(p) for p in pps]
+    opt = opt or {}
+    kw = {}
+    if "date" in opt:
+        kw["date"] = None if opt["date"] is None else datetime.datetime.strptime(opt["date"], "%Y-%m-%dT%H:%M:%S")
+    if "ct" in opt:
+        kw["computation_time"] = opt["ct"]
+    if "proc" in opt:
+        kw["processor_name"] = opt["proc"]
+    return sid, Solution(sid, lst, **kw)
 
 
 def static_read(bid, n):
@@ -149,6 +551,108 @@ def solution_fields(sol):
             "costs": [p.cost_function.name for p in pps], "id": sid_fields(sol.scenario_id)}
 
 
+SOL_QUERIES = ["bid", "vehicle_ids", "cost_ids", "planning_problem_ids", "trajectory_types", "str-sid", "hash-sid", "pps",
+               "vehicle_id", "create_dynamic_obstacle"]
+
+
+def sol_query(sol, name):
+    """a read-only query on a Solution (exceptions of create_dynamic_obstacle on input trajectories are its documented limits)"""
+    if name == "vehicle_ids":
+        sol.vehicle_ids        # noqa
+    elif name == "cost_ids":
+        sol.cost_ids           # noqa
+    elif name == "planning_problem_ids":
+        sol.planning_problem_ids   # noqa
+    elif name == "trajectory_types":
+        sol.trajectory_types   # noqa
+    elif name == "str-sid":
+        str(sol.scenario_id)
+    elif name == "hash-sid":
+        hash(sol.scenario_id)
+    elif name == "pps":
+        for q in sol.planning_problem_solutions:
+            q.vehicle_id, q.cost_id, q.trajectory_type     # noqa
+    elif name == "vehicle_id":
+        for q in sol.planning_problem_solutions:
+            q.vehicle_id       # noqa
+    elif name == "create_dynamic_obstacle":
+        try:
+            sol.create_dynamic_obstacle()
+        except Exception:  # noqa  (needs positions: input vectors have none)
+            pass
+    else:
+        sol.benchmark_id       # noqa
+
+
+def impl_solhist(case):
+    """returns (record, sol) — record has the shape of driver op `solhist`"""
+    from commonroad.common.solution import CostFunction, Solution, VehicleModel, VehicleType
+    try:
+        sid = mk_sid(case["raw"])
+    except Exception as e:  # noqa
+        return _err(e), None
+    try:
+        objs = [mk_pps(p) for p in case["pps"]]
+    except Exception as e:  # noqa
+        return _err(e), None
+    sol = Solution(sid, objs)
+    if case.get("regen"):
+        # second generation: the history runs on the Solution that came out of the reader (same ids by the property)
+        from commonroad.common.solution import CommonRoadSolutionReader, CommonRoadSolutionWriter
+        try:
+            sol = CommonRoadSolutionReader.fromstring(CommonRoadSolutionWriter(sol).dump())
+            objs = sol.planning_problem_solutions
+        except Exception:  # noqa  (whatever prevents the read-back is met again, and judged, by the oracle on the final state)
+            sol = Solution(sid, objs)
+    errs, bids = [], []
+    for op in case["ops"]:
+        name = op[0]
+        try:
+            if name == "model":
+                objs[op[1]].vehicle_model = VehicleModel[op[2]]
+            elif name == "vtype":
+                objs[op[1]].vehicle_type = VehicleType(op[2])
+            elif name == "cost":
+                objs[op[1]].cost_function = CostFunction[op[2]]
+            elif name == "traj":
+                objs[op[1]].trajectory = _trajectory(None, op[2])
+            elif name == "setpps":
+                sol.planning_problem_solutions = [objs[i] for i in op[1]]
+            elif name == "same":
+                sol.planning_problem_solutions = sol.planning_problem_solutions
+            elif name == "rev":
+                sol.planning_problem_solutions = list(reversed(sol.planning_problem_solutions))
+            elif name == "sid":
+                sol.scenario_id = mk_sid(op[1])
+            elif name == "sidset":
+                setattr(sol.scenario_id, ATTR[op[1]], _conv(op[1], op[2]))
+            else:
+                before = sol.benchmark_id
+                sol_query(sol, name)
+                bids.append(before)
+            errs.append(False)
+        except Exception:  # noqa
+            errs.append(True)
+    held = [[p.planning_problem_id, p.vehicle_model.name, p.vehicle_type.value, p.cost_function.name]
+            for p in sol.planning_problem_solutions]
+    bid = sol.benchmark_id
+    try:
+        read = {"ok": static_read(bid, len(held))}
+    except Exception as e:  # noqa
+        read = _err(e)
+    return {"ok": {"bid": bid, "read": read, "held": held, "errs": errs, "bids": bids}}, sol
+
+
+def model_sol_ops(case):
+    out = []
+    for op in case["ops"]:
+        if op[0] in ("model", "vtype", "cost", "traj", "setpps", "sid", "sidset", "same", "rev"):
+            out.append(list(op))
+        else:
+            out.append(["query"])                        # a read-only query
+    return out
+
+
 _NOT_ID_FRAMES = {"_parse_trajectory", "_parse_state", "_parse_sub_element", "_create_trajectory_node", "_create_state_node",
                   "_create_sub_element"}
 
@@ -158,30 +662,107 @@ def _outside_id_code(e):
     return any(fr.name in _NOT_ID_FRAMES for fr in traceback.extract_tb(e.__traceback__))
 
 
+def impl_tables():
+    import commonroad
+    from commonroad.common.solution import (CostFunction, SupportedCostFunctions, TrajectoryType, VehicleModel, VehicleType)
+    trajs = [("input", TrajectoryType.Input), ("pminput", TrajectoryType.PMInput)] + \
+            [("state:" + m.name, TrajectoryType[m.name]) for m in VehicleModel]
+    return {"models": [m.name for m in VehicleModel], "types": [t.value for t in VehicleType],
+            "costs": [c.name for c in CostFunction],
+            "supported": {m.name: [c.name for c in SupportedCostFunctions[m.name].value] for m in VehicleModel},
+            "traj": {n: [m.name for m in VehicleModel if t.valid_vehicle_model(m)] for n, t in trajs},
+            "versions": sorted(commonroad.SUPPORTED_COMMONROAD_VERSIONS), "default_version": commonroad.SCENARIO_VERSION,
+            "default_name": DEFAULTS["map_name"]}
+
+
+def impl_file(case, tmp):
+    """the id through a scenario file header; returns (record | None if the file code fails outside the id, written version)"""
+    import contextlib
+    import io
+    import os
+    import commonroad
+    from commonroad.common.file_reader import CommonRoadFileReader
+    from commonroad.common.file_writer import CommonRoadFileWriter, OverwriteExistingFile
+    from commonroad.common.util import FileFormat
+    from commonroad.planning.planning_problem import PlanningProblemSet
+    from commonroad.scenario.scenario import Scenario, Tag
+    sid = mk_sid(case["raw"])
+    fmt = FileFormat.XML if case["fmt"] == "xml" else FileFormat.PROTOBUF
+    sc = Scenario(0.1, sid, author="a", tags={Tag.URBAN}, affiliation="b", source="c")
+    path = os.path.join(tmp, "hdr" + (".xml" if case["fmt"] == "xml" else ".pb"))
+    import logging
+    logging.disable(logging.CRITICAL)          # "Default location will be written ...": not our subject
+    with contextlib.redirect_stdout(io.StringIO()), contextlib.redirect_stderr(io.StringIO()):
+        if case.get("default_name"):
+            cwd = os.getcwd()
+            os.chdir(tmp)
+            try:
+                CommonRoadFileWriter(sc, PlanningProblemSet(), file_format=fmt).write_to_file(
+                    None, OverwriteExistingFile.ALWAYS)          # file name = str(scenario_id) + suffix
+            finally:
+                os.chdir(cwd)
+            path = os.path.join(tmp, str(sid) + (".xml" if case["fmt"] == "xml" else ".pb"))
+        else:
+            CommonRoadFileWriter(sc, PlanningProblemSet(), file_format=fmt).write_to_file(path, OverwriteExistingFile.ALWAYS)
+        sc2, _ = CommonRoadFileReader(path).open()
+    logging.disable(logging.NOTSET)
+    written_version = commonroad.SCENARIO_VERSION if case["fmt"] == "xml" else case["raw"]["version"]
+    return sid, sc2.scenario_id, written_version
+
+
 # ------------------------------------------------------------------------------------------------ oracle
 
-def oracle_sid(ctx, case, impl, objs):
-    """property sentence 1 on the real code, for a *valid* id"""
-    raw = case["raw"]
+def oracle_obj(ctx, case, rec, objs, what):
+    """property sentence 1 on the real code, for an id object whose CURRENT values are valid (`what` = how it got them)"""
+    o, s, back = objs
+    if _ID_GRAMMAR.fullmatch(s) is None:
+        ctx.fail("C13/ScenarioID.__str__/not-in-grammar", f"printed id {s!r} is not a CommonRoad benchmark id ({what})", case)
+    if "err" in rec["parsed"]:
+        ctx.fail(f"C13/from_benchmark_id/raises-{rec['parsed']['err']}", f"parsing the printed id {s!r} raises ({what})", case)
+        return
+    if rec["parsed"]["ok"] != rec["id"] or any(type(x) is not type(y) for x, y in
+                                                zip(rec["parsed"]["ok"].values(), rec["id"].values())):
+        diff = [k for k in rec["id"] if rec["id"][k] != rec["parsed"]["ok"][k]]
+        ctx.fail("C13/from_benchmark_id/unequal-id/" + ("+".join(diff or ["type"]) if len(diff) <= 2 else "many-fields"),
+                 f"{s!r} parses back to {rec['parsed']['ok']}, printed from {rec['id']} ({what})", case)
+    elif not (back == o) or not (o == back) or (back != o):
+        ctx.fail("C13/from_benchmark_id/unequal-id/__eq__", f"{s!r}: parsed id has equal fields but == is False ({what})", case)
+    elif hash(back) != hash(o):
+        ctx.fail("C13/from_benchmark_id/unequal-id/__hash__",
+                 f"{s!r}: parsed id == printed id, but their hashes differ ({what})", case)
+    if rec["restr"] != s:
+        ctx.fail("C13/from_benchmark_id/prints-differently", f"{s!r} parses back to an id printing {rec['restr']!r} ({what})", case)
+    # an id constructed afresh from the values this object holds is the same id: equal, same hash, same print
+    try:
+        fresh = mk_sid(rec["id"])
+    except Exception as e:  # noqa
+        ctx.fail(f"C13/ScenarioID.__init__/raises-{type(e).__name__}/from-own-values",
+                 f"the values {rec['id']} of a valid id are rejected by the constructor: {e} ({what})", case)
+        return
+    if str(fresh) != s:
+        ctx.fail("C13/ScenarioID.__str__/differs-from-fresh-id",
+                 f"prints {s!r}, an id constructed from the same values {rec['id']} prints {str(fresh)!r} ({what})", case)
+    elif not (fresh == o) or hash(fresh) != hash(o):
+        ctx.fail("C13/ScenarioID.__eq__/differs-from-fresh-id",
+                 f"{s!r}: an id constructed from the same values is not equal / hashes differently ({what})", case)
+
+
+def oracle_sid(ctx, case, impl, objs, raw=None):
+    """property sentence 1 on the real code, for *valid* constructor arguments `raw`"""
+    raw = raw or case["raw"]
     if "err" in impl:
         ctx.fail(f"C13/ScenarioID.__init__/raises-{impl['err']}", f"valid scenario id fields rejected: {raw}", case)
         return
     o, s, back = objs
     r = impl["ok"]
-    if _ID_GRAMMAR.fullmatch(s) is None:
-        ctx.fail("C13/ScenarioID.__str__/not-in-grammar", f"printed id {s!r} is not a CommonRoad benchmark id ({raw})", case)
-    if "err" in r["parsed"]:
-        ctx.fail(f"C13/from_benchmark_id/raises-{r['parsed']['err']}", f"parsing the printed id {s!r} raises", case)
-        return
-    if r["parsed"]["ok"] != r["id"] or any(type(a) is not type(b) for a, b in
-                                          zip(r["parsed"]["ok"].values(), r["id"].values())):
-        diff = [k for k in r["id"] if r["id"][k] != r["parsed"]["ok"][k]]
-        ctx.fail("C13/from_benchmark_id/unequal-id/" + ("+".join(diff or ["type"]) if len(diff) <= 2 else "many-fields"),
-                 f"{s!r} parses back to {r['parsed']['ok']}, printed from {r['id']}", case)
-    elif not (back == o):
-        ctx.fail("C13/from_benchmark_id/unequal-id/__eq__", f"{s!r}: parsed id has equal fields but == is False", case)
-    if r["restr"] != s:
-        ctx.fail("C13/from_benchmark_id/prints-differently", f"{s!r} parses back to an id printing {r['restr']!r}", case)
+    oracle_obj(ctx, case, r, objs, f"constructed from {raw}")
+    # the id IS its fields: every argument that was given (not None) is what the object holds (omitted / None arguments are
+    # the constructor's business: compared with the model, no verdict here)
+    given = case["kw"] if "kw" in case else raw
+    diff = [k for k in ORDER if given.get(k) is not None and r["id"][k] != given[k]]
+    if diff:
+        ctx.fail("C13/ScenarioID.__init__/fields-differ/" + "+".join(diff[:2]),
+                 f"constructed with {given}: holds {r['id']}", case)
     # printing is a function of the CURRENT field values: print, reassign a field, print again (query -> mutate -> query)
     beh = {"S": "T", "T": "S", "P": "I", "I": "P"}
     for attr, key, new in (("map_id", "map_id", (raw["map_id"] or 1) + 1),
@@ -205,12 +786,46 @@ def oracle_sid(ctx, case, impl, objs):
             break
 
 
-def oracle_sol(ctx, case, sid, sol, bid):
-    """property sentence 2 on the real code"""
+_counter = [0]
+
+
+def read_back(ctx, sol, entry, bid):
+    """the Solution through writer and reader by the given entry point"""
+    import os
     from commonroad.common.solution import CommonRoadSolutionReader, CommonRoadSolutionWriter
-    want = {"vehicles": [[m, t] for m, t, _, _ in case["pps"]], "costs": [c for _, _, c, _ in case["pps"]],
-            "id": sid_fields(sid)}
-    n = len(case["pps"])
+    w = CommonRoadSolutionWriter(sol)
+    if entry == "fromstring-raw":
+        return CommonRoadSolutionReader.fromstring(w.dump(pretty=False))
+    if entry == "open":
+        w.dump()                                            # one writer, used twice
+        _counter[0] += 1
+        if _counter[0] % 2:
+            w.write_to_file(output_path=ctx.tmpdir(), filename="c13_solution.xml", overwrite=True, pretty=False)
+            return CommonRoadSolutionReader.open(os.path.join(ctx.tmpdir(), "c13_solution.xml"))
+        path = os.path.join(ctx.tmpdir(), f"c13_solution_{_counter[0]}.xml")       # a fresh file, overwrite left at its default
+        w.write_to_file(ctx.tmpdir(), f"c13_solution_{_counter[0]}.xml")
+        try:
+            return CommonRoadSolutionReader.open(path)
+        finally:
+            os.unlink(path)
+    if entry == "open-default-name":
+        w.write_to_file(ctx.tmpdir(), overwrite=True)       # solution_<benchmark id>.xml
+        path = os.path.join(ctx.tmpdir(), f"solution_{bid}.xml")
+        try:
+            return CommonRoadSolutionReader.open(path)
+        finally:
+            if os.path.exists(path):
+                os.unlink(path)
+    x = w.dump()
+    assert x == w.dump()
+    return CommonRoadSolutionReader.fromstring(x)
+
+
+def oracle_sol(ctx, case, sid, sol, bid, want=None, entry="fromstring-pretty"):
+    """property sentence 2 on the real code"""
+    if want is None:
+        want = {"vehicles": [[p[0], p[1]] for p in case["pps"]], "costs": [p[2] for p in case["pps"]], "id": sid_fields(sid)}
+    n = len(want["vehicles"])
     klass = "single" if n == 1 else "cooperative"
     try:
         got = static_read(bid, n)
@@ -223,37 +838,74 @@ def oracle_sol(ctx, case, sid, sol, bid):
             if got[k] != want[k]:
                 ctx.fail(f"C13/_parse_benchmark_id/different-{k}/{klass}",
                          f"{bid!r} parses back to {k} {got[k]}, the solution has {want[k]}", case)
-    # XML path: fields of the Solution returned by CommonRoadSolutionReader.fromstring
+    # the scenario part is an id printed by another object: from_benchmark_id on it gives the solution's scenario id
+    seg = bid.split(":")
+    if len(seg) == 4:
+        try:
+            from commonroad.scenario.scenario import ScenarioID
+            back = ScenarioID.from_benchmark_id(seg[2], seg[3])
+            if not (back == sol.scenario_id) or str(back) != seg[2] or hash(back) != hash(sol.scenario_id):
+                ctx.fail(f"C13/Solution.benchmark_id/scenario-part-differs/{klass}",
+                         f"{bid!r}: its scenario part parses to {sid_fields(back)}, the solution has {want['id']}", case)
+        except Exception as e:  # noqa
+            ctx.fail(f"C13/Solution.benchmark_id/scenario-part-raises-{type(e).__name__}/{klass}",
+                     f"{bid!r}: its scenario part cannot be parsed: {e}", case)
+    else:
+        ctx.fail(f"C13/Solution.benchmark_id/not-four-parts/{klass}", f"{bid!r} is not vehicles:costs:scenario:version", case)
+    # XML path: fields of the Solution returned by CommonRoadSolutionReader.fromstring / open
     try:
-        xml = CommonRoadSolutionWriter(sol).dump()
-        back = CommonRoadSolutionReader.fromstring(xml)
+        back = read_back(ctx, sol, entry, bid)
+    except OSError:
+        ctx.excluded += 1                                  # file name too long for the file system (default-name entry)
+        return
     except Exception as e:  # noqa
         if _outside_id_code(e):
             ctx.excluded += 1
             ctx.tag("sol/xml-path-blocked-outside-id-code")
             return
-        ctx.fail(f"C13/fromstring/raises-{type(e).__name__}/{klass}", f"solution with benchmark id {bid!r} cannot be read back: {e}",
-                 case)
+        ctx.fail(f"C13/fromstring/raises-{type(e).__name__}/{klass}", f"solution with benchmark id {bid!r} cannot be read back "
+                 f"({entry}): {e}", case)
         return
     ctx.tag("sol/xml-path")
     got = solution_fields(back)
     for k in ("vehicles", "costs", "id"):
         if got[k] != want[k]:
-            ctx.fail(f"C13/fromstring/different-{k}/{klass}", f"{bid!r} read back with {k} {got[k]}, written with {want[k]}", case)
+            ctx.fail(f"C13/fromstring/different-{k}/{klass}", f"{bid!r} read back ({entry}) with {k} {got[k]}, written with {want[k]}",
+                     case)
     if back.benchmark_id != bid:
-        ctx.fail(f"C13/fromstring/different-benchmark-id/{klass}", f"{bid!r} read back as {back.benchmark_id!r}", case)
+        ctx.fail(f"C13/fromstring/different-benchmark-id/{klass}", f"{bid!r} read back ({entry}) as {back.benchmark_id!r}", case)
 
 
 # ------------------------------------------------------------------------------------------------ running cases (batched)
 
+def norm_fields(raw):
+    """the id a valid argument tuple denotes (defaults of the documentation: country None -> ZAM; a behaviour or a
+    configuration makes it a scenario id with configuration 1 / prediction 1 unless given) — the harness' own statement"""
+    is_map = raw["config"] is None and raw["beh"] is None and raw["pred"] is None
+    return {"coop": raw["coop"], "country": raw["country"] or "ZAM", "map_name": raw["map_name"], "map_id": raw["map_id"],
+            "config": None if is_map else (raw["config"] or 1), "beh": raw["beh"],
+            "pred": (raw["pred"] or 1) if raw["beh"] is not None else raw["pred"], "version": raw["version"]}
+
+
 def is_valid_raw(raw):
     """the property's domain, stated on the constructor arguments (narrow reading: a single prediction id is an int)"""
     p = raw["pred"]
-    return (raw["version"] in VERSIONS and (raw["country"] is None or raw["country"] == "ZAM" or raw["country"] in countries())
-            and raw["map_name"] != "" and raw["map_name"].isascii() and raw["map_name"].isalnum()
-            and raw["map_id"] > 0 and (raw["config"] is None or raw["config"] > 0)
+    return (raw["version"] in VERSIONS and raw["coop"] in (True, False)
+            and (raw["country"] is None or raw["country"] == "ZAM" or raw["country"] in countries())
+            and isinstance(raw["map_name"], str) and raw["map_name"] != "" and raw["map_name"].isascii() and raw["map_name"].isalnum()
+            and _posint(raw["map_id"]) and (raw["config"] is None or _posint(raw["config"]))
             and raw["beh"] in (None, "S", "T", "P", "I") and (p is None or raw["beh"] is not None)
-            and (p is None or (isinstance(p, int) and p > 0) or (isinstance(p, list) and len(p) >= 2 and all(x > 0 for x in p))))
+            and (p is None or _posint(p) or (isinstance(p, list) and len(p) >= 2 and all(_posint(x) for x in p))))
+
+
+def _posint(x):
+    return isinstance(x, int) and not isinstance(x, bool) and x > 0
+
+
+def is_valid_fields(f):
+    """an id OBJECT holds a valid id: its values are in the domain and complete the way the constructor leaves them"""
+    return (f["country"] is not None and is_valid_raw(f) and (f["beh"] is None or (f["config"] is not None and f["pred"] is not None))
+            and norm_fields(f) == f)
 
 
 def tag_sid(ctx, raw, valid):
@@ -277,6 +929,54 @@ def tag_sid(ctx, raw, valid):
         ctx.tag("sid/cooperative")
     if raw["map_id"] >= 10 ** 12 or (raw["config"] or 0) >= 10 ** 12:
         ctx.tag("sid/big-number")
+    name = raw["map_name"]
+    if len(name) >= 20:
+        ctx.tag("name/long")
+    if name.isdigit():
+        ctx.tag("name/digits-only")
+    if any(c.islower() for c in name) and any(c.isupper() for c in name):
+        ctx.tag("name/mixed-case")
+    _seen["countries"].add(raw["country"] or "ZAM")
+    if len(_seen["countries"]) == len(set(countries()) | {"ZAM"}) and not _seen.get("countries-tagged"):
+        _seen["countries-tagged"] = True
+        ctx.tag("country/all-iso+ZAM")
+
+
+_seen = {"countries": set(), "masks": set(), "triples": set()}
+
+
+def tag_kw(ctx, case):
+    kw = case["kw"]
+    _seen["masks"].add(tuple(k in kw for k in ORDER))
+    if len(_seen["masks"]) == 256 and not _seen.get("masks-tagged"):
+        _seen["masks-tagged"] = True
+        ctx.tag("kw/all-256-masks")
+    if not kw:
+        ctx.tag("kw/nothing-given")
+    if case.get("pos", 0) > 0:
+        ctx.tag("kw/positional")
+    if any(kw.get(k, 0) is None for k in ("country", "config", "beh", "pred")):
+        ctx.tag("kw/explicit-none")
+    if case.get("np"):
+        ctx.tag("np/int64")
+    beh, cfg, pred = kw.get("beh"), kw.get("config"), kw.get("pred")
+    if beh is not None and pred is None:
+        ctx.tag("kw/behaviour-without-prediction")
+    if cfg is not None and beh is None and pred is None:
+        ctx.tag("kw/configuration-without-behaviour")
+    if beh is not None and cfg is None:
+        ctx.tag("kw/behaviour-without-configuration")
+    if pred is not None and beh is None:
+        ctx.tag("kw/prediction-without-behaviour")
+    if set(kw) == {"map_id"}:
+        ctx.tag("kw/map-id-only")
+
+
+def _ask(ctx, op, args):
+    """the model's answer, or None per item when the oracle alone runs (shrinking)"""
+    if getattr(ctx, "driver", None) is None:
+        return None
+    return ctx.driver.ask("C13", op, args)
 
 
 def run_batch(ctx, cases):
@@ -286,57 +986,148 @@ def run_batch(ctx, cases):
     for c in cases:
         by.setdefault(c["kind"], []).append(c)
 
+    if by.get("tables"):
+        check_dimensions(ctx)
+        for case in by["tables"]:
+            ctx.case(case)
+            ctx.tag("tables")
+            model = _ask(ctx, "tables", {"cs": []})
+            try:
+                tables = impl_tables()
+            except Exception as e:  # noqa
+                raise InfraError(f"C13: the enum tables of the working tree cannot be read: {type(e).__name__}: {e}")
+            if model is not None:
+                ctx.compare(case, tables, model, "enums / SupportedCostFunctions / valid_vehicle_model / versions vs model tables")
+
     for chunk in _chunks(by.get("sid", []), 250):
-        model = ctx.driver.ask("C13", "sid", {"cs": cs, "raws": [c["raw"] for c in chunk]})
+        model = _ask(ctx, "sid", {"cs": cs, "raws": [c["raw"] for c in chunk]}) or [None] * len(chunk)
         for case, mo in zip(chunk, model):
             raw = case["raw"]
             valid = is_valid_raw(raw)
             tag_sid(ctx, raw, valid)
+            if case.get("np"):
+                ctx.tag("np/int64")
             ctx.case(case)
-            impl, objs = impl_sid(raw)
+            impl, objs = impl_sid(raw, case.get("np", False))
             if "err" in impl:
                 ctx.tag("sid/ctor-error")
-            ctx.compare(case, impl, mo, "ScenarioID(...) / str / from_benchmark_id / str  vs  CR.BenchId.mk / print / parse / print")
+            if mo is not None:
+                ctx.compare(case, impl, mo, "ScenarioID(...) / str / from_benchmark_id / str  vs  CR.BenchId.mk / print / parse / print")
             if valid:
                 oracle_sid(ctx, case, impl, objs)
             else:
                 ctx.excluded += 1
 
+    for chunk in _chunks(by.get("sidkw", []), 250):
+        model = _ask(ctx, "sidkw", {"cs": cs, "kws": [c["kw"] for c in chunk]}) or [None] * len(chunk)
+        for case, mo in zip(chunk, model):
+            raw = fill_kw(case["kw"])
+            valid = is_valid_raw(raw)
+            tag_sid(ctx, raw, valid)
+            tag_kw(ctx, case)
+            ctx.case(case)
+            impl, objs = impl_sid(raw, ctor=lambda: mk_sid_kw(case))
+            if "err" in impl:
+                ctx.tag("sid/ctor-error")
+            if mo is not None:
+                ctx.compare(case, impl, mo, "ScenarioID(<some arguments>) / str / from_benchmark_id / str  vs  CR.BenchId.Kw.fill / mk / "
+                                            "print / parse / print")
+            if valid:
+                oracle_sid(ctx, case, impl, objs, raw)
+            else:
+                ctx.excluded += 1
+
+    for chunk in _chunks(by.get("hist", []), 250):
+        model = _ask(ctx, "hist", {"cs": cs, "items": [{"raw": c["raw"], "ops": model_id_ops(c)} for c in chunk]}) \
+            or [None] * len(chunk)
+        for case, mo in zip(chunk, model):
+            ctx.case(case)
+            tag_hist(ctx, case)
+            impl, objs = impl_hist(case)
+            if mo is not None:
+                ctx.compare(case, impl, mo, "ScenarioID(...), attribute history, str / from_benchmark_id / str  vs  CR.BenchId.mk / "
+                                            "runOps / print / parse / print")
+            if "ok" in impl and is_valid_fields(impl["ok"]["id"]):
+                ctx.tag("hist/valid-final")
+                oracle_obj(ctx, case, impl["ok"], objs, f"constructed from {case['raw']}, then {case['ops']}")
+            else:
+                ctx.tag("hist/outside-final")
+                ctx.excluded += 1
+
     for chunk in _chunks(by.get("parse", []), 250):
-        model = ctx.driver.ask("C13", "parse", {"cs": cs, "items": [[c["s"], c["version"]] for c in chunk]})
+        model = _ask(ctx, "parse", {"cs": cs, "items": [[c["s"], c["version"]] for c in chunk]}) or [None] * len(chunk)
         for case, mo in zip(chunk, model):
             ctx.case(case)
             ctx.tag("parse/well-formed" if _ID_GRAMMAR.fullmatch(case["s"]) else "parse/malformed")
-            ctx.compare(case, impl_parse(case["s"], case["version"]), mo, "ScenarioID.from_benchmark_id vs CR.BenchId.parse")
+            via = case.get("via", "class")
+            if via != "class":
+                ctx.tag("parse/via-" + via)
+            if mo is not None:
+                ctx.compare(case, impl_parse(case["s"], case["version"], via), mo, "ScenarioID.from_benchmark_id vs CR.BenchId.parse")
+
+    for case in by.get("file", []):
+        run_file_case(ctx, case, cs)
 
     for chunk in _chunks(by.get("sol", []), 100):
-        model = ctx.driver.ask("C13", "sol", {"cs": cs, "sols": [
-            {"raw": c["raw"], "vs": [[m, t] for m, t, _, _ in c["pps"]], "costs": [k for _, _, k, _ in c["pps"]]} for c in chunk]})
+        model = _ask(ctx, "sol", {"cs": cs, "sols": [
+            {"raw": c["raw"], "vs": [[p[0], p[1]] for p in c["pps"]], "costs": [p[2] for p in c["pps"]]} for c in chunk]}) \
+            or [None] * len(chunk)
         for case, mo in zip(chunk, model):
             ctx.case(case)
-            n = len(case["pps"])
-            ctx.tag("sol/single" if n == 1 else "sol/cooperative")
+            tag_sol(ctx, case)
+            opt = case.get("opt", {})
             try:
-                sid, sol = mk_solution(case["raw"], case["pps"])
+                sid, sol = mk_solution(case["raw"], case["pps"], opt)
             except Exception as e:  # noqa
                 ctx.fail(f"C13/Solution/raises-{type(e).__name__}", f"valid solution cannot be constructed: {e}", case)
                 continue
             try:
+                for q in opt.get("pre", []):
+                    sol_query(sol, q)
                 bid = sol.benchmark_id
             except Exception as e:  # noqa
                 ctx.fail(f"C13/Solution.benchmark_id/raises-{type(e).__name__}", f"benchmark_id raises: {e}", case)
                 continue
             try:
-                read = {"ok": static_read(bid, n)}
+                read = {"ok": static_read(bid, len(case["pps"]))}
             except Exception as e:  # noqa
                 read = _err(e)
-            ctx.compare(case, {"ok": {"bid": bid, "read": read}}, mo,
-                        "Solution.benchmark_id / _parse_benchmark_id / _parse_vehicle_id  vs  CR.BenchId.benchmarkId / readSolutionIds")
-            oracle_sol(ctx, case, sid, sol, bid)
+            if mo is not None:
+                ctx.compare(case, {"ok": {"bid": bid, "read": read}}, mo,
+                            "Solution.benchmark_id / _parse_benchmark_id / _parse_vehicle_id  vs  CR.BenchId.benchmarkId / readSolutionIds")
+            oracle_sol(ctx, case, sid, sol, bid, entry=opt.get("entry", "fromstring-pretty"))
+
+    for chunk in _chunks(by.get("solhist", []), 100):
+        model = _ask(ctx, "solhist", {"cs": cs, "items": [
+            {"raw": c["raw"], "pps": [[p[3], p[0], p[1], p[2], p[4] or _default_kind(p[0])] for p in map(_pp, c["pps"])],
+             "ops": model_sol_ops(c)} for c in chunk]}) or [None] * len(chunk)
+        for case, mo in zip(chunk, model):
+            ctx.case(case)
+            tag_solhist(ctx, case)
+            try:
+                impl, sol = impl_solhist(case)
+            except Exception as e:  # noqa  (constructing the Solution / reading its benchmark_id or its held objects raises)
+                ctx.fail(f"C13/Solution.benchmark_id/raises-{type(e).__name__}/history",
+                         f"a Solution built from {case['pps']} fails after {case['ops']}: {e}", case)
+                continue
+            if mo is not None:
+                ctx.compare(case, impl, mo, "Solution / PlanningProblemSolution history, benchmark_id, reader  vs  CR.BenchId.stepSol / "
+                                            "SolState.benchmarkId / readSolutionIds")
+            if "err" in impl:
+                ctx.tag("solhist/ctor-rejected")
+                continue
+            held = impl["ok"]["held"]
+            f = sid_fields(sol.scenario_id)
+            if held and is_valid_fields(f) and len({h[0] for h in held}) == len(held):
+                ctx.tag("solhist/oracle")
+                want = {"vehicles": [[h[1], h[2]] for h in held], "costs": [h[3] for h in held], "id": f}
+                oracle_sol(ctx, case, sol.scenario_id, sol, impl["ok"]["bid"], want, case.get("entry", "fromstring-pretty"))
+            else:
+                ctx.excluded += 1
 
     for chunk in _chunks(by.get("bid", []), 250):
         from commonroad.common.solution import CommonRoadSolutionReader as R
-        model = ctx.driver.ask("C13", "bid_parse", {"cs": cs, "items": [c["s"] for c in chunk]})
+        model = _ask(ctx, "bid_parse", {"cs": cs, "items": [c["s"] for c in chunk]}) or [None] * len(chunk)
         for case, mo in zip(chunk, model):
             ctx.case(case)
             ctx.tag("bid/malformed")
@@ -345,11 +1136,12 @@ def run_batch(ctx, cases):
                 impl = {"ok": {"vehicle_ids": v, "cost_ids": c, "id": sid_fields(sid)}}
             except Exception as e:  # noqa
                 impl = _err(e)
-            ctx.compare(case, impl, mo, "_parse_benchmark_id vs CR.BenchId.parseBenchmarkId")
+            if mo is not None:
+                ctx.compare(case, impl, mo, "_parse_benchmark_id vs CR.BenchId.parseBenchmarkId")
 
     for chunk in _chunks(by.get("vid", []), 250):
         from commonroad.common.solution import CommonRoadSolutionReader as R
-        model = ctx.driver.ask("C13", "vid_parse", {"cs": [], "items": [c["s"] for c in chunk]})
+        model = _ask(ctx, "vid_parse", {"cs": [], "items": [c["s"] for c in chunk]}) or [None] * len(chunk)
         for case, mo in zip(chunk, model):
             ctx.case(case)
             ctx.tag("vid")
@@ -358,7 +1150,8 @@ def run_batch(ctx, cases):
                 impl = {"ok": [m.name, t.value]}
             except Exception as e:  # noqa
                 impl = _err(e)
-            ctx.compare(case, impl, mo, "_parse_vehicle_id vs CR.BenchId.parseVehicleId")
+            if mo is not None:
+                ctx.compare(case, impl, mo, "_parse_vehicle_id vs CR.BenchId.parseVehicleId")
 
     for case in by.get("tamper", []):
         from commonroad.common.solution import CommonRoadSolutionReader, CommonRoadSolutionWriter
@@ -376,8 +1169,144 @@ def run_batch(ctx, cases):
                 continue
             impl = _err(e)
         ctx.tag("tamper/compared")
-        mo = ctx.driver.ask("C13", "read_ids", {"cs": cs, "items": [[case["bid"], len(case["pps"])]]})[0]
-        ctx.compare(case, impl, mo, "CommonRoadSolutionReader.fromstring (benchmark_id replaced) vs CR.BenchId.readSolutionIds")
+        mo = _ask(ctx, "read_ids", {"cs": cs, "items": [[case["bid"], len(case["pps"])]]})
+        if mo is not None:
+            ctx.compare(case, impl, mo[0], "CommonRoadSolutionReader.fromstring (benchmark_id replaced) vs CR.BenchId.readSolutionIds")
+
+
+def run_file_case(ctx, case, cs):
+    """the id through the header of a scenario file (CommonRoadFileWriter -> CommonRoadFileReader)"""
+    ctx.case(case)
+    ctx.tag("file/xml" if case["fmt"] == "xml" else "file/protobuf")
+    raw = case["raw"]
+    if raw["version"] == "2018b":
+        ctx.tag("file/2018b")
+    try:
+        sid, back, ver = impl_file(case, ctx.tmpdir())
+    except OSError:
+        ctx.excluded += 1
+        return
+    except Exception as e:  # noqa
+        tb = [fr.name for fr in traceback.extract_tb(e.__traceback__)]
+        if any(n in ("from_benchmark_id", "__str__", "_write_header", "_get_benchmark_id") for n in tb) or "ScenarioID" in str(e):
+            ctx.fail(f"C13/scenario-file/raises-{type(e).__name__}/{case['fmt']}", f"a scenario with id {raw} cannot be written "
+                     f"and read back: {e}", case)
+        else:
+            ctx.excluded += 1          # the file code fails elsewhere: not the id
+        return
+    s = str(sid)
+    impl = {"ok": {"id": sid_fields(back), "str": str(back)}}
+    mo = _ask(ctx, "parse", {"cs": cs, "items": [[s, ver]]})
+    if mo is not None:
+        ctx.compare(case, impl, mo[0], "id read from a scenario file header  vs  CR.BenchId.parse (print, header version)")
+    want = dict(sid_fields(sid), version=ver)
+    got = sid_fields(back)
+    if got != want:
+        diff = [k for k in want if got[k] != want[k]]
+        ctx.fail(f"C13/scenario-file/unequal-id/{case['fmt']}/" + "+".join(diff[:2]),
+                 f"scenario id {want} written to a {case['fmt']} file is read back as {got}", case)
+    elif ver == raw["version"] and (not (back == sid) or hash(back) != hash(sid)):
+        ctx.fail(f"C13/scenario-file/unequal-id/{case['fmt']}/__eq__", f"{s!r} read back from a {case['fmt']} file is not == / hashes "
+                 f"differently", case)
+    if str(back) != s:
+        ctx.fail(f"C13/scenario-file/prints-differently/{case['fmt']}", f"{s!r} read back from a {case['fmt']} file prints {str(back)!r}",
+                 case)
+
+
+def _default_kind(m):
+    return "pminput" if m == "PM" else "KST" if m == "KST" else "input"
+
+
+def tag_hist(ctx, case):
+    names = [op[0] for op in case["ops"]]
+    assigns = [i for i, n in enumerate(names) if n in ATTR or n == "pred_append" or n.startswith("same:")]
+    queries = [i for i, n in enumerate(names) if i not in assigns]
+    if any(op[0] == "country" and op[1] not in (None, "ZAM") and op[1] not in countries() for op in case["ops"]):
+        ctx.tag("hist/rejected-assignment")
+    if any(op[0] == "country" and op[1] is None for op in case["ops"]):
+        ctx.tag("hist/country-none-assigned")
+    if any(op[0] == "map_name" and not op[1].isalnum() for op in case["ops"]):
+        ctx.tag("hist/map-name-cleaned")
+    if "pred_append" in names:
+        ctx.tag("hist/pred-list-in-place")
+    if any(n.startswith("same:") for n in names):
+        ctx.tag("hist/same-object-back")
+    if queries and assigns and min(queries) < max(assigns):
+        ctx.tag("hist/query-between")
+    for n in ("deepcopy", "pickle"):
+        if n in names:
+            ctx.tag("hist/" + n)
+    if {"config", "beh", "pred"} <= set(names):
+        ctx.tag("hist/tail-switch")
+    if "version" in names:
+        ctx.tag("hist/version-set")
+    if case.get("start") == "parsed":
+        ctx.tag("hist/start-parsed")
+
+
+def tag_sol(ctx, case):
+    pps = [_pp(p) for p in case["pps"]]
+    n = len(pps)
+    ctx.tag("sol/single" if n == 1 else "sol/cooperative")
+    if n >= 5:
+        ctx.tag("sol/len>=5")
+    if n >= 20:
+        ctx.tag("sol/len-20")
+    for m, t, c, pid, kind in pps:
+        k = kind or _default_kind(m)
+        ctx.tag("sol/traj-input" if k in ("input", "pminput") else "sol/traj-state")
+        if m == "KST":
+            ctx.tag("sol/three-letter-model")
+        _seen["triples"].add((m, t, c))
+        if pid == 0:
+            ctx.tag("sol/pid-zero")
+        if pid >= 10 ** 9:
+            ctx.tag("sol/pid-large")
+    if len(_seen["triples"]) == len(supported_triples()) and not _seen.get("triples-tagged"):
+        _seen["triples-tagged"] = True
+        ctx.tag("sol/all-supported-triples")
+    pids = [p[3] for p in pps]
+    if pids != sorted(pids):
+        ctx.tag("sol/pids-unsorted")
+    if n >= 2 and len({p[2] for p in pps}) == 1:
+        ctx.tag("sol/same-cost-everywhere")
+    opt = case.get("opt", {})
+    ctx.tag("sol/entry/" + opt.get("entry", "fromstring-pretty"))
+    if "date" in opt:
+        ctx.tag("sol/date-none" if opt["date"] is None else "sol/date-given")
+    if opt.get("ct") is not None:
+        ctx.tag("sol/computation-time")
+    if opt.get("proc") is not None:
+        ctx.tag("sol/processor-name")
+    if opt.get("pre"):
+        ctx.tag("sol/queries-first")
+
+
+def tag_solhist(ctx, case):
+    names = [op[0] for op in case["ops"]]
+    if any(n in ("model", "vtype", "cost") for n in names):
+        ctx.tag("solhist/setter")
+    if case.get("rejects"):
+        ctx.tag("solhist/setter-rejected")
+    if "traj" in names:
+        ctx.tag("solhist/trajectory-set")
+    if "setpps" in names or "rev" in names:
+        ctx.tag("solhist/list-reassigned")
+    if "same" in names:
+        ctx.tag("solhist/same-list-back")
+    pids = [p[3] for p in case["pps"]]
+    if len(set(pids)) < len(pids) or any(op[0] == "setpps" and len(set(op[1])) < len(op[1]) for op in case["ops"]):
+        ctx.tag("solhist/repeated-pid")
+    if "sid" in names:
+        ctx.tag("solhist/sid-reassigned")
+    if "sidset" in names:
+        ctx.tag("solhist/sid-mutated")
+    if case.get("regen"):
+        ctx.tag("solhist/read-back-first")
+    muts = [i for i, n in enumerate(names) if n in ("model", "vtype", "cost", "traj", "setpps", "same", "rev", "sid", "sidset")]
+    qs = [i for i, n in enumerate(names) if i not in muts]
+    if qs and muts and min(qs) < max(muts):
+        ctx.tag("solhist/query-between")
 
 
 def _chunks(l, n):
@@ -420,7 +1349,12 @@ def rnd_num(r):
 def rnd_name(r):
     k = r.random()
     if k < 0.3:
-        return r.choice(NAMES + ["CC", "ZAM", "S", "I1", "123", "1a2B", "Z", "z9", "USLanker", "Muc"])
+        return r.choice(NAMES + ["CC", "ZAM", "S", "I1", "123", "1a2B", "Z", "z9", "USLanker", "Muc", "C1", "DEUMuc2", "T1S1",
+                                 "007", "Cc", "lowerUPPER9"])
+    if k < 0.36:
+        return "".join(r.choice(_ALNUM) for _ in range(r.randint(20, 40)))
+    if k < 0.42:
+        return "".join(r.choice("0123456789") for _ in range(r.randint(1, 8)))
     return "".join(r.choice(_ALNUM) for _ in range(r.randint(1, 12)))
 
 
@@ -438,6 +1372,141 @@ def gen_valid_raw(r):
     country = r.choice(countries()) if r.random() < 0.85 else r.choice(["ZAM", "ZAM", None])
     return {"coop": r.random() < 0.4, "country": country, "map_name": rnd_name(r), "map_id": rnd_num(r), "config": cfg,
             "beh": beh, "pred": pred, "version": r.choice(VERSIONS)}
+
+
+def rnd_country(r):
+    """a value for the country_id setter: any ISO code, ZAM, or None (which the setter turns into ZAM)"""
+    k = r.random()
+    return r.choice(countries()) if k < 0.7 else "ZAM" if k < 0.8 else None
+
+
+def kw_value(r, k):
+    """an in-domain value for constructor argument k (tail arguments: see gen_kw_case)"""
+    if k == "coop":
+        return r.random() < 0.5
+    if k == "country":
+        return r.choice(countries()) if r.random() < 0.7 else r.choice(["ZAM", "ZAM", None])
+    if k == "map_name":
+        return rnd_name(r)
+    if k == "map_id":
+        return rnd_num(r)
+    if k == "version":
+        return r.choice(VERSIONS)
+    if k == "config":
+        return rnd_num(r) if r.random() < 0.9 else None
+    if k == "beh":
+        return r.choice("STPI") if r.random() < 0.92 else None
+    return r.choice([rnd_num(r), rnd_num(r), [rnd_num(r) for _ in range(r.randint(2, 4))], None])
+
+
+def gen_kw_case(r, mask=None):
+    """ScenarioID with the arguments of `mask` given (tuple of 8 booleans in signature order; None = random)"""
+    if mask is None:
+        mask = tuple(r.random() < 0.5 for _ in ORDER)
+    kw = {k: kw_value(r, k) for k, given in zip(ORDER, mask) if given}
+    case = {"kind": "sidkw", "kw": kw}
+    lead = 0
+    while lead < 8 and mask[lead]:
+        lead += 1
+    if lead and r.random() < 0.4:
+        case["pos"] = r.randint(1, lead)
+    nums = [v for k, v in kw.items() if k in ("map_id", "config", "pred") and v is not None]
+    flat = [x for v in nums for x in (v if isinstance(v, list) else [v])]
+    if flat and all(x < 2 ** 62 for x in flat) and r.random() < 0.25:
+        case["np"] = True
+    return case
+
+
+def all_mask_cases(r):
+    import itertools
+    return [gen_kw_case(r, m) for m in itertools.product((False, True), repeat=8)]
+
+
+def country_sweep(r):
+    """every ISO-3166 alpha-3 code and ZAM once, the other arguments given or not at random"""
+    out = []
+    for c in countries() + ["ZAM"]:
+        case = gen_kw_case(r, (r.random() < 0.5, True) + tuple(r.random() < 0.5 for _ in range(6)))
+        case["kw"]["country"] = c
+        out.append(case)
+    return out
+
+
+_QUERIES = ["str", "str", "hash", "eq", "country_name", "prediction_type", "parse-self", "parse-other", "deepcopy", "pickle"]
+
+
+def gen_hist_case(r):
+    """a valid id, then 1..8 steps; the generator tracks the values the object holds (for in-place edits and the final state)"""
+    raw = gen_valid_raw(r)
+    cur = norm_fields(raw)
+    ops = []
+
+    def assign(k, v):
+        ops.append([k, v])
+        cur[k] = ("".join(ch for ch in v if ch.isascii() and ch.isalnum()) if k == "map_name" else (v or "ZAM") if k == "country" else v)
+
+    def query():
+        ops.append([r.choice(_QUERIES), None])
+
+    leave_invalid = r.random() < 0.3
+    for _ in range(r.randint(1, 5)):
+        k = r.random()
+        if k < 0.2:
+            query()
+        elif k < 0.5:
+            f = r.choice(["coop", "country", "map_name", "map_id", "version"])
+            if f == "coop":
+                assign(f, not cur["coop"] if r.random() < 0.8 else cur["coop"])
+            elif f == "country":
+                if r.random() < 0.25:
+                    ops.append(["country", r.choice(["XXX", "deu", "DE", "", "Zam", "GERM"])])       # rejected: ValueError
+                else:
+                    assign(f, rnd_country(r))
+            elif f == "map_name":
+                v = rnd_name(r)
+                if r.random() < 0.3:
+                    i = r.randrange(len(v) + 1)
+                    v = v[:i] + r.choice(["-", "_", " ", ".", "/", "ß", ":"]) + v[i:]             # cleaned by the setter
+                assign(f, v)
+            elif f == "map_id":
+                assign(f, rnd_num(r))
+            else:
+                assign(f, r.choice(VERSIONS))
+        elif k < 0.8:
+            # switch the optional tail to another complete shape, the three attributes in any order, queries in between
+            shape = r.randrange(4)
+            if shape == 0:
+                tgt = {"config": None, "beh": None, "pred": None}
+            elif shape == 1:
+                tgt = {"config": rnd_num(r), "beh": None, "pred": None}
+            elif shape == 2:
+                tgt = {"config": rnd_num(r), "beh": r.choice("STPI"), "pred": rnd_num(r)}
+            else:
+                tgt = {"config": rnd_num(r), "beh": r.choice("STPI"), "pred": [rnd_num(r) for _ in range(r.randint(2, 4))]}
+            ks = ["config", "beh", "pred"]
+            r.shuffle(ks)
+            if leave_invalid and r.random() < 0.6:
+                ks = ks[:r.randint(1, 2)]
+            for f in ks:
+                assign(f, tgt[f])
+                if r.random() < 0.3:
+                    query()
+        elif k < 0.9:
+            f = r.choice(ORDER)
+            ops.append(["same:" + f, None])
+        else:
+            if isinstance(cur["pred"], list):
+                x = rnd_num(r)
+                cur["pred"] = cur["pred"] + [x]
+                ops.append(["pred_append", x, list(cur["pred"])])
+            else:
+                query()
+    if r.random() < 0.3:
+        query()
+    case = {"kind": "hist", "raw": raw, "ops": ops}
+    if r.random() < 0.3:
+        case["start"] = "parsed"
+    return case
 
 
 def gen_outside_raw(r):
@@ -518,7 +1587,13 @@ def gen_parse_case(r):
             s = mutate(r, s)
     else:
         s = "".join(r.choice("AZC_-019aT S") for _ in range(r.randint(0, 14)))
-    return {"kind": "parse", "s": s, "version": r.choice(VERSIONS + VERSIONS + ["2017"])}
+    case = {"kind": "parse", "s": s, "version": r.choice(VERSIONS + VERSIONS + ["2017"])}
+    k = r.random()
+    if k < 0.15:
+        case["via"] = "instance"
+    elif k < 0.25:
+        case["via"] = "keyword"
+    return case
 
 
 def supported_triples():
@@ -527,17 +1602,142 @@ def supported_triples():
             if c in SupportedCostFunctions[m.name].value]
 
 
-def gen_sol_case(r, triples, n=None):
-    n = n or r.choice([1, 1, 2, 2, 3, 4])
+def rnd_kind(r, m):
+    """trajectory kind admissible for model m: its input vector or its state trajectory"""
+    if m == "KST":
+        return "KST"
+    return r.choice(["pminput" if m == "PM" else "input", m])
+
+
+def rnd_pids(r, n):
+    k = r.random()
+    if k < 0.5:
+        return r.sample(range(0, 1000), n)
+    if k < 0.65:
+        return r.sample(range(0, n + 1), n)                       # 0 .. n in any order
+    if k < 0.8:
+        return sorted(r.sample(range(0, 50), n), reverse=True)    # descending
+    return r.sample([0, 1, 7, 10 ** 9, 10 ** 12, 10 ** 12 + 1, 2 ** 31, 2 ** 63, 999, 42] + list(range(100, 100 + n)), n)
+
+
+def gen_sol_opt(r):
+    opt = {"entry": r.choice(["fromstring-pretty", "fromstring-raw", "open", "open-default-name"])}
+    k = r.random()
+    if k < 0.25:
+        opt["date"] = None
+    elif k < 0.5:
+        opt["date"] = r.choice(["2020-01-02T03:04:05", "1999-12-31T23:59:59", "2026-09-29T00:00:00"])
+    k = r.random()
+    if k < 0.2:
+        opt["ct"] = None
+    elif k < 0.45:
+        opt["ct"] = r.choice([0.5, 1.25, 3, 1024])
+    k = r.random()
+    if k < 0.2:
+        opt["proc"] = None
+    elif k < 0.4:
+        opt["proc"] = r.choice(["Intel(R) Core(TM) i7", "cpu:1", "a", "auto" if r.random() < 0.2 else "x86"])
+    if r.random() < 0.4:
+        opt["pre"] = [r.choice(SOL_QUERIES) for _ in range(r.randint(1, 3))]
+    return opt
+
+
+def gen_sol_case(r, triples, n=None, plain=False):
+    n = n or r.choice([1, 1, 2, 2, 3, 4, 5, 6, 8])
     raw = gen_valid_raw(r)
     if n > 1 and r.random() < 0.7:
         raw["coop"] = True
-    pids = r.sample(range(0, 1000), n)
-    return {"kind": "sol", "raw": raw, "pps": [list(r.choice(triples)) + [pid] for pid in pids]}
+    pids = r.sample(range(0, 1000), n) if plain else rnd_pids(r, n)
+    if not plain and n >= 2 and r.random() < 0.2:
+        m, t, c = r.choice(triples)                              # one cost function everywhere
+        same = [tr for tr in triples if tr[2] == c]
+        pps = [list(r.choice(same)) + [pid] for pid in pids]
+    else:
+        pps = [list(r.choice(triples)) + [pid] for pid in pids]
+    case = {"kind": "sol", "raw": raw, "pps": pps}
+    if not plain:
+        for p in pps:
+            p.append(rnd_kind(r, p[0]))
+        case["opt"] = gen_sol_opt(r)
+    return case
+
+
+def gen_solhist_case(r, triples):
+    """a Solution and 1..7 operations on it; `rejects` records that a setter call the code must refuse was generated"""
+    n = r.choice([1, 2, 2, 3, 4])
+    raw = gen_valid_raw(r)
+    pids = rnd_pids(r, n)
+    if n >= 2 and r.random() < 0.12:
+        pids[-1] = pids[0]                                         # repeated planning problem id
+    pps = []
+    for pid in pids:
+        m, t, c = r.choice(triples)
+        pps.append([m, t, c, pid, rnd_kind(r, m)])
+    case = {"kind": "solhist", "raw": raw, "pps": pps, "ops": [], "entry": r.choice(["fromstring-pretty", "fromstring-raw", "open"])}
+    if r.random() < 0.04:
+        # a combination the constructor refuses (trajectory kind / cost function not admissible for the model)
+        p = pps[r.randrange(n)]
+        if r.random() < 0.5:
+            p[0], p[2], p[4] = "PM", r.choice(["SA1", "SM1", "SM2", "SM3", "TR1"]), "pminput"
+        else:
+            p[0], p[4] = r.choice(["KS", "ST", "MB", "KST"]), "pminput"
+        return case
+    ops = case["ops"]
+    for _ in range(r.randint(1, 7)):
+        k = r.random()
+        i = r.randrange(n)
+        if k < 0.14:
+            ops.append(["model", i, r.choice(["PM", "ST", "KS", "MB", "KST"])])
+            case["rejects"] = True          # (most model changes are refused: trajectory kind / cost function)
+        elif k < 0.26:
+            ops.append(["vtype", i, r.randint(1, 4)])
+        elif k < 0.40:
+            ops.append(["cost", i, r.choice(["JB1", "SA1", "WX1", "SM1", "SM2", "SM3", "MW1", "TR1"])])
+        elif k < 0.46:
+            ops.append(["traj", i, r.choice(["input", "pminput", "PM", "ST", "KS", "MB", "KST"])])
+        elif k < 0.58:
+            idxs = [r.randrange(n) for _ in range(r.randint(1, n + 1))] if r.random() < 0.3 else r.sample(range(n), r.randint(1, n))
+            ops.append(["setpps", idxs])
+        elif k < 0.64:
+            ops.append([r.choice(["same", "rev"])])
+        elif k < 0.72:
+            ops.append(["sid", gen_valid_raw(r)])
+        elif k < 0.84:
+            f = r.choice(["coop", "country", "map_name", "map_id", "version", "config", "pred"])
+            if f == "coop":
+                v = r.random() < 0.5
+            elif f == "country":
+                v = rnd_country(r) if r.random() < 0.9 else "XXX"
+            elif f == "map_name":
+                v = rnd_name(r)
+            elif f == "version":
+                v = r.choice(VERSIONS)
+            elif f == "pred":
+                v = r.choice([rnd_num(r), [rnd_num(r), rnd_num(r)]])
+            else:
+                v = rnd_num(r)
+            ops.append(["sidset", f, v])
+        else:
+            ops.append([r.choice(SOL_QUERIES)])
+    if r.random() < 0.02:
+        ops.append(["setpps", []])
+    if len(set(pids)) == n and r.random() < 0.25:
+        case["regen"] = True
+    return case
+
+
+def gen_file_case(r):
+    raw = gen_valid_raw(r)
+    if r.random() < 0.5:
+        raw["version"] = "2020a"
+    case = {"kind": "file", "raw": raw, "fmt": r.choice(["xml", "pb"])}
+    if r.random() < 0.2 and len(printed(raw)) < 120:
+        case["default_name"] = True
+    return case
 
 
 def gen_bid_case(r, triples):
-    c = gen_sol_case(r, triples)
+    c = gen_sol_case(r, triples, plain=True)
     vs = [f"{m}{t}" for m, t, _, _ in c["pps"]]
     ks = [k for _, _, k, _ in c["pps"]]
     br = (lambda l: l[0] if len(l) == 1 else "[" + ",".join(l) + "]")
@@ -567,7 +1767,7 @@ VIDS = ["PM1", "PM2", "PM3", "PM4", "ST1", "KS2", "MB3", "KST4", "KST1", "PM0", 
 
 
 def gen_tamper_case(r, triples):
-    c = gen_sol_case(r, triples, n=r.choice([1, 2, 3]))
+    c = gen_sol_case(r, triples, n=r.choice([1, 2, 3]), plain=True)
     vs = [f"{m}{t}" for m, t, _, _ in c["pps"]]
     ks = [k for _, _, k, _ in c["pps"]]
     sc, ver = printed(c["raw"]), c["raw"]["version"]
@@ -594,10 +1794,11 @@ def gen_tamper_case(r, triples):
 
 # ------------------------------------------------------------------------------------------------ entry points
 
-def run(ctx):
+def run(ctx, verdict=True):
     import glob, json, os
     from common import CORPUS_DIR
     r = ctx.rng
+    run_batch(ctx, [{"kind": "tables"}])          # dimension table + enum tables first: nothing below is meaningful otherwise
     corpus = [json.load(open(p)) for p in sorted(glob.glob(os.path.join(CORPUS_DIR, "C13", "*.json")))]
     if corpus:
         run_batch(ctx, corpus)
@@ -606,20 +1807,34 @@ def run(ctx):
     prod = product_cases()
     prod = prod[ctx.worker::max(1, ctx.workers)]     # the full product, split over the workers
     cases += prod
-    cases += [{"kind": "sid", "raw": gen_valid_raw(r)} for _ in range(ctx.n(3000))]
+    cases += [{"kind": "sid", "raw": gen_valid_raw(r)} for _ in range(ctx.n(2000))]
+    cases += [{"kind": "sid", "raw": gen_valid_raw(r), "np": True} for _ in range(ctx.n(100))]
     cases += [{"kind": "sid", "raw": gen_outside_raw(r)} for _ in range(ctx.n(1200))]
+    # keyword construction: every given/omitted mask twice, every country once, random masks
+    cases += all_mask_cases(r) + all_mask_cases(r) + country_sweep(r)
+    cases += [gen_kw_case(r) for _ in range(ctx.n(1200))]
+    cases += [{"kind": "sidkw", "kw": {}}]
+    cases += [gen_hist_case(r) for _ in range(ctx.n(3000))]
     cases += [gen_parse_case(r) for _ in range(ctx.n(2500))]
+    cases += [gen_file_case(r) for _ in range(ctx.n(300))]
     # every supported (model, type, cost) triple once as a single solution, then random single / cooperative ones
     for tr in triples:
-        cases.append({"kind": "sol", "raw": gen_valid_raw(r), "pps": [list(tr) + [r.randrange(1000)]]})
-    cases += [gen_sol_case(r, triples) for _ in range(ctx.n(500))]
+        cases.append({"kind": "sol", "raw": gen_valid_raw(r), "pps": [list(tr) + [r.randrange(1000), rnd_kind(r, tr[0])]],
+                      "opt": gen_sol_opt(r)})
+    cases += [gen_sol_case(r, triples) for _ in range(ctx.n(800))]
+    cases += [gen_sol_case(r, triples, n=20) for _ in range(ctx.n(2))]
+    cases += [gen_solhist_case(r, triples) for _ in range(ctx.n(1200))]
     cases += [gen_bid_case(r, triples) for _ in range(ctx.n(600))]
     cases += [{"kind": "vid", "s": s} for s in VIDS]
     cases += [gen_tamper_case(r, triples) for _ in range(ctx.n(150))]
     run_batch(ctx, cases)
+    if verdict:
+        dimensions_verdict(ctx)
 
 
-search = run
+def search(ctx):
+    """failing-input search after a broken obligation / disagreement: the same streams; the dimension verdict was the run's"""
+    run(ctx, verdict=False)
 
 
 def replay(ctx, case):
@@ -628,9 +1843,10 @@ def replay(ctx, case):
 
 class _Probe:
     """minimal stand-in for Ctx while shrinking: runs the oracle (implementation only), records failure keys"""
+    driver = None
 
     def __init__(self):
-        self.keys, self.excluded = set(), 0
+        self.keys, self.excluded, self.tmp = set(), 0, None
 
     def fail(self, key, what, case, detail=None):
         self.keys.add(key)
@@ -638,32 +1854,39 @@ class _Probe:
     def tag(self, *a):
         pass
 
+    def case(self, *a, **k):
+        pass
+
+    def compare(self, *a, **k):
+        return True
+
+    def tmpdir(self):
+        import tempfile
+        if self.tmp is None:
+            self.tmp = tempfile.mkdtemp(prefix="crverif_C13_shrink_")
+        return self.tmp
+
+
+_probe = None
+
 
 def _still_fails(case, key):
+    global _probe
     warnings.filterwarnings("ignore")
-    pr = _Probe()
+    if _probe is None:
+        _probe = _Probe()
+    _probe.keys = set()
     try:
-        if case["kind"] == "sid":
-            if not is_valid_raw(case["raw"]):
-                return False
-            impl, objs = impl_sid(case["raw"])
-            oracle_sid(pr, case, impl, objs)
-        elif case["kind"] == "sol":
-            if not is_valid_raw(case["raw"]) or not case["pps"]:
-                return False
-            sid, sol = mk_solution(case["raw"], case["pps"])
-            oracle_sol(pr, case, sid, sol, sol.benchmark_id)
-        else:
-            return False
+        run_batch(_probe, [case])
     except Exception:  # noqa
         return False
-    return key in pr.keys
+    return key in _probe.keys
 
 
 def shrink(case, key):
-    """greedy: simpler field values / fewer planning problems while the same finding key is still produced"""
-    import copy
-    if case.get("kind") not in ("sid", "sol") or not _still_fails(case, key):
+    """greedy: simpler field values / fewer arguments / fewer operations / fewer planning problems while the same finding key
+    is still produced"""
+    if case.get("kind") not in ("sid", "sidkw", "hist", "sol", "solhist", "file") or not _still_fails(case, key):
         return case
     cur = copy.deepcopy(case)
 
@@ -677,23 +1900,36 @@ def shrink(case, key):
         if cand != cur and _still_fails(cand, key):
             cur = cand
 
-    if cur["kind"] == "sol":
+    for opt_key in ("np", "pos", "opt", "default_name", "entry"):
+        attempt(lambda c, k=opt_key: c.pop(k))
+    if "ops" in cur:
+        for _ in range(3):
+            for i in reversed(range(len(cur["ops"]))):
+                attempt(lambda c, i=i: c["ops"].pop(i))
+    if "pps" in cur and cur["kind"] == "sol":
         for _ in range(4):
             for i in range(len(cur["pps"])):
                 attempt(lambda c, i=i: c["pps"].pop(i))
         for i in range(len(cur["pps"])):
             attempt(lambda c, i=i: c["pps"].__setitem__(i, ["PM", 1, "JB1", c["pps"][i][3]]))
             attempt(lambda c, i=i: c["pps"][i].__setitem__(3, i + 1))
-    for k, v in (("coop", False), ("country", "ZAM"), ("map_name", "a"), ("map_id", 1), ("version", "2020a"), ("config", None),
-                 ("config", 1), ("pred", None), ("pred", 1), ("pred", [1, 2]), ("beh", None)):
-        attempt(lambda c, k=k, v=v: c["raw"].__setitem__(k, v))
-    if isinstance(cur["raw"]["pred"], list):
-        for _ in range(4):
-            attempt(lambda c: c["raw"]["pred"].pop())
-        attempt(lambda c: c["raw"].__setitem__("pred", [min(x, 10) for x in c["raw"]["pred"]]))
-    for k in ("map_id", "config", "pred"):
-        if isinstance(cur["raw"][k], int):
-            for v in (2, 10, 11, 100, 101):
-                if cur["raw"][k] > v:
-                    attempt(lambda c, k=k, v=v: c["raw"].__setitem__(k, v))
+    if "kw" in cur:
+        for k in list(cur["kw"]):
+            attempt(lambda c, k=k: c["kw"].pop(k))
+    fields = cur["kw"] if "kw" in cur else cur.get("raw")
+    which = "kw" if "kw" in cur else "raw"
+    if fields is not None:
+        for k, v in (("coop", False), ("country", "ZAM"), ("map_name", "a"), ("map_id", 1), ("version", "2020a"), ("config", None),
+                     ("config", 1), ("pred", None), ("pred", 1), ("pred", [1, 2]), ("beh", None)):
+            if k in fields:
+                attempt(lambda c, k=k, v=v: c[which].__setitem__(k, v))
+        if isinstance(cur[which].get("pred"), list):
+            for _ in range(4):
+                attempt(lambda c: c[which]["pred"].pop())
+            attempt(lambda c: c[which].__setitem__("pred", [min(x, 10) for x in c[which]["pred"]]))
+        for k in ("map_id", "config", "pred"):
+            if isinstance(cur[which].get(k), int):
+                for v in (2, 10, 11, 100, 101):
+                    if cur[which][k] > v:
+                        attempt(lambda c, k=k, v=v: c[which].__setitem__(k, v))
     return cur
